@@ -2513,6 +2513,60 @@ fn case_json_docs(ctx: &mut Ctx, sch: &Sch, k: Consts, sub: u64) {
     }
 }
 
+/// byte strings that are and are not UTF-8, stored as a text value by the Lean encoder: the real
+/// deserializer must accept exactly those the model's `utf8Valid` accepts, and return them unchanged
+fn case_utf8(ctx: &mut Ctx) {
+    let mut samples: Vec<Vec<u8>> = vec![
+        vec![], b"plain".to_vec(), "Δ日🙂".as_bytes().to_vec(),
+        vec![0xC0, 0x80], vec![0xC1, 0xBF], vec![0xC2, 0x80], vec![0xDF, 0xBF], vec![0xDF], vec![0x80], vec![0xBF, 0x41],
+        vec![0xE0, 0x80, 0x80], vec![0xE0, 0x9F, 0xBF], vec![0xE0, 0xA0, 0x80], vec![0xED, 0x9F, 0xBF], vec![0xED, 0xA0, 0x80],
+        vec![0xEE, 0x80, 0x80], vec![0xEF, 0xBF, 0xBF], vec![0xE6, 0x97], vec![0xE6, 0x41, 0x41],
+        vec![0xF0, 0x8F, 0xBF, 0xBF], vec![0xF0, 0x90, 0x80, 0x80], vec![0xF4, 0x8F, 0xBF, 0xBF], vec![0xF4, 0x90, 0x80, 0x80],
+        vec![0xF5, 0x80, 0x80, 0x80], vec![0xF0, 0x9F, 0x99], vec![0xFF], vec![0xFE, 0xFF],
+    ];
+    for _ in 0..60 {
+        let n = 1 + ctx.rng.usize_below(6);
+        let mut b = ctx.rng.bytes(n);
+        if ctx.rng.chance(1, 2) {
+            b[0] |= 0xC0; // more multi-byte lead bytes than uniform noise would give
+        }
+        let mut v = "a é".as_bytes().to_vec();
+        v.extend(b);
+        samples.push(v);
+    }
+    for sample in samples {
+        let case = json!({"kind": "utf8", "sub": "0"});
+        ctx.report.case(&format!("utf8|{}", hex(&sample)), true);
+        let canon = format!("3=S{}", hex(&sample));
+        let bytes = match unhex(&ctx.model.ask(&format!("C09 docenc {canon}"))) {
+            Some(b) => b,
+            None => continue,
+        };
+        let std_ok = std::str::from_utf8(&sample).is_ok();
+        let real = catch_unwind(AssertUnwindSafe(|| tantivy::verif::c09_deserialize_doc(&bytes).map(|d| canon_doc(&d))));
+        let model = ctx.model.ask(&format!("C09 docdecs {}", hex(&bytes)));
+        match real {
+            Ok(Ok(got)) => {
+                if !std_ok || got != canon {
+                    ctx.report.violation("oracle", "C09:utf8-accepted", format!("the deserializer returns {} for the text bytes {} (valid UTF-8: {std_ok})", clip(&got), hex(&sample)), case.clone());
+                }
+                if model != canon {
+                    ctx.report.violation("model", "C09:utf8-model", format!("text bytes {}: accepted by the real deserializer, model says {model}", hex(&sample)), case);
+                }
+            }
+            Ok(Err(_)) => {
+                if std_ok {
+                    ctx.report.violation("oracle", "C09:utf8-rejected", format!("the deserializer rejects the valid UTF-8 text {}", hex(&sample)), case.clone());
+                }
+                if model != "err" {
+                    ctx.report.violation("model", "C09:utf8-model", format!("text bytes {}: rejected by the real deserializer, model says {model}", hex(&sample)), case);
+                }
+            }
+            Err(_) => ctx.report.violation("oracle", "C09:codec-panic", format!("deserializing the text bytes {} panicked", hex(&sample)), case),
+        }
+    }
+}
+
 /// the number classification alone: `OwnedValue::from(serde_json::Value)` against the rule
 /// (oracle) and against the Lean `jsonNumber` (model)
 fn case_json_numbers(ctx: &mut Ctx) {
@@ -2648,7 +2702,7 @@ fn plan(seed: u64, thorough: bool) -> Vec<(&'static str, Vec<(&'static str, u64)
         let mut r = Rng::new(seed ^ crate::report::fnv(name.as_bytes()));
         (0..n).map(|_| r.next_u64()).collect()
     };
-    let mut fixed: Vec<(&'static str, u64)> = vec![("vint", 0), ("vint32", 0), ("empty", 0), ("jsonnum", 0)];
+    let mut fixed: Vec<(&'static str, u64)> = vec![("vint", 0), ("vint32", 0), ("empty", 0), ("jsonnum", 0), ("utf8", 0)];
     for depth in [1u64, 2, 64, 127, 128, 300] {
         fixed.push(("deep", depth));
     }
@@ -2689,6 +2743,7 @@ fn run_case(ctx: &mut Ctx, sch: &Sch, k: Consts, kind: &str, sub: u64) {
         "v1" => case_v1_store(ctx, sch, sub),
         "jsondoc" => case_json_docs(ctx, sch, k, sub),
         "jsonnum" => case_json_numbers(ctx),
+        "utf8" => case_utf8(ctx),
         "mixed" => case_mixed_codec_merge(ctx, sch, k, sub),
         other => ctx.report.notes.push(format!("unknown case kind {other}")),
     }
@@ -2822,6 +2877,7 @@ pub fn run(ctx: &mut Ctx) {
         "JSON number classification: OwnedValue::from(serde_json::Value) = model jsonNumber".into(),
         "TantivyDocument node_data (leaf encodings, address tables) = model cdAdd, byte for byte".into(),
         "lz4 / zstd blocks: 4-byte length frame = model framed codec header".into(),
+        "UTF-8 check of stored strings: real deserializer accepts exactly what the model's utf8Valid accepts".into(),
         "iter_raw + get on one reader: CacheStats = model runOps (iteration through the cache)".into(),
     ];
     // ---- child: one phase, or one replayed case, in this process -------------------------------
